@@ -2171,6 +2171,8 @@ impl<R: Read> Vp8Decoder<R> {
         self.read_frame_header()?;
         #[cfg(image_webp_verif)]
         verif_parse::record_header(&self);
+        #[cfg(image_webp_verif)]
+        verif_recon::on_header(&self);
 
         for mby in 0..self.mbheight as usize {
             let p = mby % self.num_partitions as usize;
@@ -2200,6 +2202,8 @@ impl<R: Read> Vp8Decoder<R> {
 
                 self.intra_predict_luma(mbx, mby, &mb, &blocks);
                 self.intra_predict_chroma(mbx, mby, &mb, &blocks);
+                #[cfg(image_webp_verif)]
+                verif_recon::on_macroblock(&mb, &blocks);
 
                 self.macroblocks.push(mb);
             }
@@ -2207,6 +2211,8 @@ impl<R: Read> Vp8Decoder<R> {
             self.left_border = vec![129u8; 1 + 16];
         }
 
+        #[cfg(image_webp_verif)]
+        verif_recon::on_planes(&self.frame, false);
         //do loop filtering
         // A frame-level filter strength of zero disables the loop filter for the whole frame,
         // whatever the per-segment levels and deltas say.
@@ -2219,6 +2225,8 @@ impl<R: Read> Vp8Decoder<R> {
             }
         }
 
+        #[cfg(image_webp_verif)]
+        verif_recon::on_planes(&self.frame, true);
         // Crop the macroblock-aligned planes to the display size.
         let (width, height) = (self.frame.width as usize, self.frame.height as usize);
         let chroma_width = self.frame.chroma_width() as usize;
@@ -3342,6 +3350,262 @@ pub(crate) mod verif_parse {
         Vp8Decoder::decode_frame(Cursor::new(payload)).map(|f| (f.width, f.height))
     }
 }
+
+/// Verification hooks (reconstruction correspondence, check `vp8recon`): a thread-local recorder fed by
+/// `decode_frame_` (header fields the reconstruction reads, the `MacroBlock` and the 384 residuals of every
+/// macroblock as they are handed to `intra_predict_luma`, the macroblock-aligned planes before and after the
+/// loop-filter pass), and wrappers running `Vp8Decoder::loop_filter`, the filter pass and `crop_plane` on given data.
+#[cfg(image_webp_verif)]
+pub(crate) mod verif_recon {
+    use super::*;
+    use std::cell::RefCell;
+
+    /// The decoder fields the reconstruction half of `decode_frame_` reads.
+    #[derive(Clone, Debug, Default, PartialEq, Eq)]
+    pub struct ReconHeader {
+        /// `mbwidth`
+        pub mbwidth: u16,
+        /// `mbheight`
+        pub mbheight: u16,
+        /// `frame.width`
+        pub width: u16,
+        /// `frame.height`
+        pub height: u16,
+        /// `frame.keyframe`
+        pub keyframe: bool,
+        /// `frame.filter_type` (true = simple filter)
+        pub filter_type: bool,
+        /// `frame.filter_level`
+        pub filter_level: u8,
+        /// `frame.sharpness_level`
+        pub sharpness_level: u8,
+        /// `segments_enabled`
+        pub segments_enabled: bool,
+        /// `segment[i].delta_values`
+        pub segment_delta_values: [bool; 4],
+        /// `segment[i].loopfilter_level`
+        pub segment_loopfilter_level: [i8; 4],
+        /// `ref_delta`
+        pub ref_delta: [i32; 4],
+        /// `mode_delta`
+        pub mode_delta: [i32; 4],
+    }
+
+    /// Plain copy of the `MacroBlock` fields the reconstruction reads (enums as their `repr(i8)` discriminants).
+    #[derive(Clone, Debug, Default, PartialEq, Eq)]
+    pub struct ReconMb {
+        /// `luma_mode`
+        pub luma_mode: i8,
+        /// `bpred`
+        pub bpred: [i8; 16],
+        /// `chroma_mode`
+        pub chroma_mode: i8,
+        /// `segmentid`
+        pub segmentid: u8,
+        /// `coeffs_skipped`
+        pub coeffs_skipped: bool,
+        /// `non_zero_coeffs`
+        pub non_zero_coeffs: bool,
+    }
+
+    /// What one run of `decode_frame_` recorded.
+    #[derive(Clone, Debug, Default)]
+    pub struct Recording {
+        /// after `read_frame_header`
+        pub header: Option<ReconHeader>,
+        /// per macroblock, in decoding order: the `MacroBlock` and the 384 residuals given to `intra_predict_*`
+        pub macroblocks: Vec<(ReconMb, Vec<i32>)>,
+        /// (ybuf, ubuf, vbuf), macroblock-aligned, after the last macroblock and before the loop-filter pass
+        pub unfiltered: Option<(Vec<u8>, Vec<u8>, Vec<u8>)>,
+        /// the same planes after the loop-filter pass, before cropping
+        pub filtered: Option<(Vec<u8>, Vec<u8>, Vec<u8>)>,
+    }
+
+    thread_local! { static REC: RefCell<Option<Recording>> = const { RefCell::new(None) }; }
+
+    /// Start recording on this thread (drops an earlier recording).
+    pub fn start() {
+        REC.with(|r| *r.borrow_mut() = Some(Recording::default()));
+    }
+
+    /// Stop recording and return what was recorded since `start`.
+    pub fn take() -> Option<Recording> {
+        REC.with(|r| r.borrow_mut().take())
+    }
+
+    fn mb_copy(mb: &MacroBlock) -> ReconMb {
+        let mut bpred = [0i8; 16];
+        for (d, s) in bpred.iter_mut().zip(mb.bpred.iter()) {
+            *d = *s as i8;
+        }
+        ReconMb {
+            luma_mode: mb.luma_mode as i8,
+            bpred,
+            chroma_mode: mb.chroma_mode as i8,
+            segmentid: mb.segmentid,
+            coeffs_skipped: mb.coeffs_skipped,
+            non_zero_coeffs: mb.non_zero_coeffs,
+        }
+    }
+
+    fn mb_build(m: &ReconMb) -> MacroBlock {
+        let mut mb = MacroBlock {
+            luma_mode: LumaMode::from_i8(m.luma_mode).expect("luma mode number"),
+            chroma_mode: ChromaMode::from_i8(m.chroma_mode).expect("chroma mode number"),
+            segmentid: m.segmentid,
+            coeffs_skipped: m.coeffs_skipped,
+            non_zero_coeffs: m.non_zero_coeffs,
+            ..MacroBlock::default()
+        };
+        for (d, s) in mb.bpred.iter_mut().zip(m.bpred.iter()) {
+            *d = IntraMode::from_i8(*s).expect("sub-block mode number");
+        }
+        mb
+    }
+
+    fn header_copy<R>(d: &Vp8Decoder<R>) -> ReconHeader {
+        let mut h = ReconHeader {
+            mbwidth: d.mbwidth,
+            mbheight: d.mbheight,
+            width: d.frame.width,
+            height: d.frame.height,
+            keyframe: d.frame.keyframe,
+            filter_type: d.frame.filter_type,
+            filter_level: d.frame.filter_level,
+            sharpness_level: d.frame.sharpness_level,
+            segments_enabled: d.segments_enabled,
+            ref_delta: d.ref_delta,
+            mode_delta: d.mode_delta,
+            ..ReconHeader::default()
+        };
+        for i in 0..4 {
+            h.segment_delta_values[i] = d.segment[i].delta_values;
+            h.segment_loopfilter_level[i] = d.segment[i].loopfilter_level;
+        }
+        h
+    }
+
+    /// called by `decode_frame_` after `read_frame_header`
+    pub(super) fn on_header<R>(d: &Vp8Decoder<R>) {
+        REC.with(|r| {
+            if let Some(rec) = r.borrow_mut().as_mut() {
+                rec.header = Some(header_copy(d));
+            }
+        });
+    }
+
+    /// called by `decode_frame_` after the two `intra_predict_*` calls of a macroblock
+    pub(super) fn on_macroblock(mb: &MacroBlock, blocks: &[i32; 384]) {
+        REC.with(|r| {
+            if let Some(rec) = r.borrow_mut().as_mut() {
+                rec.macroblocks.push((mb_copy(mb), blocks.to_vec()));
+            }
+        });
+    }
+
+    /// called by `decode_frame_` before (`filtered` = false) and after (true) the loop-filter pass
+    pub(super) fn on_planes(frame: &Frame, filtered: bool) {
+        REC.with(|r| {
+            if let Some(rec) = r.borrow_mut().as_mut() {
+                let p = Some((frame.ybuf.clone(), frame.ubuf.clone(), frame.vbuf.clone()));
+                if filtered {
+                    rec.filtered = p;
+                } else {
+                    rec.unfiltered = p;
+                }
+            }
+        });
+    }
+
+    /// A decoder whose reconstruction-side state is `h` and whose planes are the given ones.
+    fn decoder_with(h: &ReconHeader, ybuf: Vec<u8>, ubuf: Vec<u8>, vbuf: Vec<u8>) -> Vp8Decoder<std::io::Empty> {
+        let mut d = Vp8Decoder::new(std::io::empty());
+        d.mbwidth = h.mbwidth;
+        d.mbheight = h.mbheight;
+        d.frame.width = h.width;
+        d.frame.height = h.height;
+        d.frame.keyframe = h.keyframe;
+        d.frame.filter_type = h.filter_type;
+        d.frame.filter_level = h.filter_level;
+        d.frame.sharpness_level = h.sharpness_level;
+        d.segments_enabled = h.segments_enabled;
+        d.ref_delta = h.ref_delta;
+        d.mode_delta = h.mode_delta;
+        for i in 0..4 {
+            d.segment[i].delta_values = h.segment_delta_values[i];
+            d.segment[i].loopfilter_level = h.segment_loopfilter_level[i];
+        }
+        d.frame.ybuf = ybuf;
+        d.frame.ubuf = ubuf;
+        d.frame.vbuf = vbuf;
+        d
+    }
+
+    /// One call of `Vp8Decoder::loop_filter(mbx, mby, mb)` on the given macroblock-aligned planes.
+    pub fn loop_filter_mb(
+        h: &ReconHeader,
+        mbx: usize,
+        mby: usize,
+        mb: &ReconMb,
+        ybuf: Vec<u8>,
+        ubuf: Vec<u8>,
+        vbuf: Vec<u8>,
+    ) -> (Vec<u8>, Vec<u8>, Vec<u8>) {
+        let mut d = decoder_with(h, ybuf, ubuf, vbuf);
+        let mb = mb_build(mb);
+        d.loop_filter(mbx, mby, &mb);
+        (d.frame.ybuf, d.frame.ubuf, d.frame.vbuf)
+    }
+
+    /// The loop-filter pass as `decode_frame_` writes it (same condition, same two loops, same indexing of
+    /// `macroblocks`), on the given planes and macroblocks.
+    pub fn filter_pass(
+        h: &ReconHeader,
+        mbs: &[ReconMb],
+        ybuf: Vec<u8>,
+        ubuf: Vec<u8>,
+        vbuf: Vec<u8>,
+    ) -> (Vec<u8>, Vec<u8>, Vec<u8>) {
+        let mut d = decoder_with(h, ybuf, ubuf, vbuf);
+        d.macroblocks = mbs.iter().map(mb_build).collect();
+        if d.frame.filter_level != 0 {
+            for mby in 0..d.mbheight as usize {
+                for mbx in 0..d.mbwidth as usize {
+                    let mb = d.macroblocks[mby * d.mbwidth as usize + mbx];
+                    d.loop_filter(mbx, mby, &mb);
+                }
+            }
+        }
+        (d.frame.ybuf, d.frame.ubuf, d.frame.vbuf)
+    }
+
+    /// `crop_plane`
+    pub fn crop(mut plane: Vec<u8>, stride: usize, width: usize, height: usize) -> Vec<u8> {
+        crop_plane(&mut plane, stride, width, height);
+        plane
+    }
+
+    /// One of the three edge functions of loop_filter.rs at one position: `which` = 0 `simple_segment`,
+    /// 1 `subblock_filter`, 2 `macroblock_filter`.
+    #[allow(clippy::too_many_arguments)]
+    pub fn edge(
+        which: u8,
+        hev_threshold: u8,
+        interior_limit: u8,
+        edge_limit: u8,
+        mut pixels: Vec<u8>,
+        point: usize,
+        stride: usize,
+    ) -> Vec<u8> {
+        match which {
+            0 => loop_filter::simple_segment(edge_limit, &mut pixels, point, stride),
+            1 => loop_filter::subblock_filter(hev_threshold, interior_limit, edge_limit, &mut pixels, point, stride),
+            _ => loop_filter::macroblock_filter(hev_threshold, interior_limit, edge_limit, &mut pixels, point, stride),
+        }
+        pixels
+    }
+}
+
 
 #[cfg(all(test, feature = "_benchmarks"))]
 mod benches {
